@@ -57,7 +57,10 @@ where
     }
 
     fn is_null(&self) -> bool {
-        self.is_none()
+        match *self {
+            Some(ref v) => v.is_null(),
+            None => true,
+        }
     }
 }
 
@@ -402,6 +405,9 @@ where
     }
     fn to_mysql_bin<W: Write>(&self, w: &mut W, c: &Column) -> io::Result<()> {
         (*self).to_mysql_bin(w, c)
+    }
+    fn is_null(&self) -> bool {
+        (*self).is_null()
     }
 }
 
